@@ -9,6 +9,10 @@ pub mod indexfile;
 pub mod distro;
 pub mod sync;
 pub mod naming;
+pub mod dispatch;
+pub mod restart;
+pub mod snapfile;
+pub mod smutil;
 
 pub fn make(name: &str) -> Option<Box<dyn Suite>> {
     match name {
@@ -17,6 +21,9 @@ pub fn make(name: &str) -> Option<Box<dyn Suite>> {
         "distro" => Some(Box::new(distro::Distro::new())),
         "sync" => Some(Box::new(sync::Sync::new())),
         "naming" => Some(Box::new(naming::Naming::new())),
+        "dispatch" => Some(Box::new(dispatch::Dispatch::new())),
+        "restart" => Some(Box::new(restart::Restart::new())),
+        "snapfile" => Some(Box::new(snapfile::SnapFile::new())),
         _ => None,
     }
 }
